@@ -195,6 +195,10 @@ func (op Op) expr() string {
 		return "(stable-sort < " + a + ")"
 	case "sort>":
 		return "(stable-sort > " + a + ")"
+	case "sort-str<":
+		return "(stable-sort string< " + a + " to-string)"
+	case "sort-str>":
+		return "(stable-sort string> " + a + " to-string)"
 	case "append!":
 		return "(append! " + a + " 9)"
 	case "append!2":
@@ -276,7 +280,7 @@ func keyVal(sym bool) string {
 // change its target.
 func (op Op) mutating() bool {
 	switch op.K {
-	case "sort<", "sort>", "append!", "append!2", "append!-bytes", "append-bytes!-str", "append-bytes!2",
+	case "sort<", "sort>", "sort-str<", "sort-str>", "append!", "append!2", "append!-bytes", "append-bytes!-str", "append-bytes!2",
 		"append!-store", "assoc!-store", "assoc!", "dissoc!",
 		"append!-list-err", "append!-bytes-err", "append-bytes!-err":
 		return true
@@ -561,6 +565,23 @@ func apply(w0 *world, op Op) (outs []*world, expectErr bool) {
 	case "alias", "to-bytes":
 		return one(w, av)
 
+	case "sort-str<", "sort-str>":
+		// keys-style lists (symbols and strings) ordered by name
+		desc := op.K == "sort-str>"
+		sorted := append([]val(nil), w.cells(A)...)
+		sort.SliceStable(sorted, func(i, j int) bool {
+			if desc {
+				return sorted[i].s > sorted[j].s
+			}
+			return sorted[i].s < sorted[j].s
+		})
+		if A.sealed {
+			v := w.newSeq(kList, sorted)
+			w.o(v).quoted = w.o(av).quoted
+			return one(w, v)
+		}
+		copy(w.cells(A), sorted)
+		return one(w, av)
 	case "sort<", "sort>":
 		desc := op.K == "sort>"
 		if A.sealed {
@@ -829,6 +850,10 @@ func alphabet(w *world, al alpha) []Op {
 				add("sort<", a, -1, 0, 0)
 				add("sort>", a, -1, 0, 0)
 			}
+			if n >= 1 && w.allNames(o) {
+				add("sort-str<", a, -1, 0, 0)
+				add("sort-str>", a, -1, 0, 0)
+			}
 			if o.k == kVec {
 				add("append!", a, -1, 0, 0)
 				if full {
@@ -987,33 +1012,7 @@ func alphabetNoop(w *world) []Op {
 			add(k, -1, -1, 0, 0)
 		}
 	case len(w.vars) == 1:
-		for _, op := range alphabet(w, full) {
-			if !op.isConstructor() && !op.mutating() && !op.returnsArgument() {
-				ops = append(ops, op)
-			}
-		}
-		v := w.vars[0]
-		if v.t != tRef {
-			return ops
-		}
-		o := w.o(v)
-		switch o.k {
-		case kList, kVec:
-			for _, k := range []string{"concat-list-e", "concat-vector-e", "select-all-list", "select-all-vector",
-				"reject-none-list", "reject-none-vector"} {
-				add(k, 0, -1, 0, 0)
-			}
-		case kBytes:
-			for _, k := range []string{"append-bytes-t0", "append-bytes-str0", "concat-bytes-e"} {
-				add(k, 0, -1, 0, 0)
-			}
-		case kMap:
-			for ki := 0; ki < nWriteKeys; ki++ {
-				if i := o.find(mapKeys[ki].name); i >= 0 && o.ents[i].v.t == tInt {
-					add("assoc-same", 0, -1, ki, o.ents[i].v.n)
-				}
-			}
-		}
+		ops = nonMutatingOn0(w, 2)
 	default:
 		for _, op := range alphabet(w, full) {
 			switch op.K {
@@ -1022,6 +1021,42 @@ func alphabetNoop(w *world) []Op {
 			}
 			if op.mutating() {
 				ops = append(ops, op)
+			}
+		}
+	}
+	return ops
+}
+
+// nonMutatingOn0: every non-mutating, container-building operation of the
+// given alphabet level on v0 (the only live value), plus the explicit no-op
+// argument shapes.
+func nonMutatingOn0(w *world, level int) []Op {
+	var ops []Op
+	add := func(k string, a, b, i, j int) { ops = append(ops, Op{K: k, A: a, B: b, I: i, J: j}) }
+	for _, op := range alphabet(w, alpha{level: level, maxVars: 6}) {
+		if !op.isConstructor() && !op.mutating() && !op.returnsArgument() {
+			ops = append(ops, op)
+		}
+	}
+	v := w.vars[0]
+	if v.t != tRef {
+		return ops
+	}
+	o := w.o(v)
+	switch o.k {
+	case kList, kVec:
+		for _, k := range []string{"concat-list-e", "concat-vector-e", "select-all-list", "select-all-vector",
+			"reject-none-list", "reject-none-vector"} {
+			add(k, 0, -1, 0, 0)
+		}
+	case kBytes:
+		for _, k := range []string{"append-bytes-t0", "append-bytes-str0", "concat-bytes-e"} {
+			add(k, 0, -1, 0, 0)
+		}
+	case kMap:
+		for ki := 0; ki < nWriteKeys; ki++ {
+			if i := o.find(mapKeys[ki].name); i >= 0 && o.ents[i].v.t == tInt {
+				add("assoc-same", 0, -1, ki, o.ents[i].v.n)
 			}
 		}
 	}
